@@ -10,3 +10,17 @@ Example c16_ex_image_ok : c16_clean c16_ex_image = true /\ c16_sem_images (match
 Proof. split; [vm_compute; reflexivity|split; [vm_compute; reflexivity|vm_compute; discriminate]]. Qed.
 Example c16_ex_coalesce : c16_sem (c16_coalesce [[49]; [50; 10]; [51]]) = Some [CsNum 1 0; CsNum 2 0; CsNum 3 0].
 Proof. vm_compute. reflexivity. Qed.
+(* non-vacuity of coalesce_with_repeats: object 4 = "1 0 0 1 9 0 cm" (no trailing white space), object 5 = "q", object 9 = the array
+   [5 4 5 4 4]; the page whose /Contents is 9 0 R has a reading, the same stream contributes at each of its positions, and
+   the model's list is the array with its repetitions; [4 null 5] has no reading and raises a warning *)
+Definition c16_ex_store : c16_store :=
+  [(4, CoStream [49;32;48;32;48;32;49;32;57;32;48;32;99;109]); (5, CoStream [113]); (9, CoArr [CvRef 5; CvRef 4; CvRef 5; CvRef 4; CvRef 4]); (7, CoNull)].
+Example c16_ex_repeats :
+  c16_spec_page c16_ex_store (CvRef 9) <> None /\
+  option_map (@length _) (c16_spec_page c16_ex_store (CvRef 9)) = Some 23%nat /\
+  c16_page_streams c16_ex_store (CvRef 9) = [5; 4; 5; 4; 4] /\
+  c16_sem (c16_page_content c16_ex_store (CvRef 9)) = c16_spec_page c16_ex_store (CvRef 9) /\
+  c16_spec_page c16_ex_store (CvArr [CvRef 4; CvRef 7; CvRef 5]) = None /\
+  c16_page_warnings c16_ex_store (CvArr [CvRef 4; CvRef 7; CvRef 5]) = [CwNonStreamItem 1] /\
+  c16_page_warnings c16_ex_store (CvArr [CvRef 4; CvNull; CvRef 5]) = [CwThrown 1].
+Proof. repeat split; vm_compute; try reflexivity; discriminate. Qed.
